@@ -101,7 +101,29 @@ def tri_star_ear(k=1):
     return cycles, info
 
 
-SHAPES = {"tri_star": tri_star, "tri_star_ear": tri_star_ear, "double_y": double_y, "four_fold": four_fold, "border_fan": border_fan}
+def tri_star_two_ears(k=1):
+    """tri_star with two ears on different outer arcs, inserted at non-consecutive positions of the construction order:
+    two cells without internal interface whose columns are not adjacent"""
+    J, S, R = 90, [11, 12, 13], [21, 22, 23]
+    Ra, Rb, E1, E2 = 24, 25, 81, 82
+    Rc, Rd, E3, E4 = 26, 27, 83, 84
+    sp = [[30 + 10 * i + j for j in range(k)] for i in range(3)]
+    spokes = [_path(J, sp[i], S[i]) for i in range(3)]
+    cids = [7, 3, 5]
+    ear1, ear2 = 12, 14
+    cycles = {}
+    cycles[ear1] = [Ra, E1, E2, Rb]
+    cycles[cids[0]] = spokes[0] + [Ra, Rb] + spokes[1][::-1][:-1]
+    cycles[cids[1]] = spokes[1] + [R[1]] + spokes[2][::-1][:-1]
+    cycles[ear2] = [Rc, E3, E4, Rd]
+    cycles[cids[2]] = spokes[2] + [Rc, Rd] + spokes[0][::-1][:-1]
+    info = dict(junction_rows=[J], internal=spokes, three_cell_vertices=[J],
+                external=[[S[0], Ra], [Ra, Rb], [Rb, S[1]], [Ra, E1, E2, Rb], [S[1], R[1], S[2]], [S[2], Rc], [Rc, Rd], [Rd, S[0]], [Rc, E3, E4, Rd]],
+                cells_of={tuple(spokes[i]): (cids[(i - 1) % 3], cids[i]) for i in range(3)}, isolated_cells=[ear1, ear2])
+    return cycles, info
+
+
+SHAPES = {"tri_star": tri_star, "tri_star_ear": tri_star_ear, "tri_star_two_ears": tri_star_two_ears, "double_y": double_y, "four_fold": four_fold, "border_fan": border_fan}
 
 
 def vertex_ids(cycles):
